@@ -20,6 +20,7 @@ type FunctionBuilder struct {
 	fset    *token.FileSet    // The fileset used to read the method.
 	pkg     *packages.Package // The package where the method belongs.
 	imports util.ImportNames  // The import names to be used.
+	built   map[string]bool   // The functions built so far, by receiver type and name.
 }
 
 // NewFunctionBuilder is a constructor that returns a new instance of
@@ -115,6 +116,19 @@ func (p *FunctionBuilder) CreateFunction(m *bmodel.MethodEntry) (*gmodel.Functio
 	} else if obj, _, _ := types.LookupFieldOrMethod(src.Type(), true, p.pkg.Types, m.Method.Name()); obj != nil {
 		return nil, logger.Errorf("%v: the receiver type already has a field or method %v", p.fset.Position(m.Method.Pos()), m.Method.Name())
 	}
+
+	// Two converter interfaces of one file may not ask for the same function.
+	funcKey := m.Method.Name()
+	if m.Opts.Receiver != "" {
+		funcKey = srcVar.Type + "." + funcKey
+	}
+	if p.built == nil {
+		p.built = make(map[string]bool)
+	}
+	if p.built[funcKey] {
+		return nil, logger.Errorf("%v: %v is generated twice", p.fset.Position(m.Method.Pos()), m.Method.Name())
+	}
+	p.built[funcKey] = true
 
 	// Receiver, parameters and named results share one scope in the generated function.
 	usedNames := []string{srcVar.Name, dstVar.Name}
